@@ -529,7 +529,10 @@ def check_property(prop, tier, master, n_ff, n_f, workers, strat_scale=1.0):
     wall_runs = time.time() - t0
     # ---- violations: one report per distinct class, smallest run index first
     classes = {}
+    alternates = {}
     for v in sorted(tot["viol"], key=lambda v: (str(v["faults"]), v["i"])):
+        if tuple(v["vclass"]) in classes:
+            alternates.setdefault(tuple(v["vclass"]), []).append(v)
         classes.setdefault(tuple(v["vclass"]), v)
     nviol = 0
     replays = []
@@ -549,7 +552,16 @@ def check_property(prop, tier, master, n_ff, n_f, workers, strat_scale=1.0):
         print("VIOLATION property=%s replay=%s" % (prop, path), flush=True)
     for vclass, v in list(classes.items())[:6]:
         ops = shrink(prop, v["ops"], vclass, 300 if tier == "quick" else 800)
+        tried = 0
+        v0 = v
+        while ops is None and alternates.get(vclass) and tried < 6:
+            # this instance does not reproduce from its op list (e.g. it hinged on a
+            # memory address being reused): take another run that showed the same class
+            v = alternates[vclass].pop(0)
+            tried += 1
+            ops = shrink(prop, v["ops"], vclass, 300 if tier == "quick" else 800)
         if ops is None:
+            v = v0
             # not reproducible from its own op list: does it need the earlier runs of
             # its chunk (state that lives in the library's modules, not in any object)?
             runs = multi_shrink(prop, v.get("prefix") or [], v["ops"], vclass) \
